@@ -19,8 +19,13 @@ def _lib():
 def _views(devs, f, v, w, tag):
     """All views of field ``f`` must describe (v, w)."""
     want = v.to_bytes(w, "big")
-    eq(devs, f"{tag}.as_bytes", bytes(f.as_bytes), want)
-    true(devs, f"{tag}.as_bytes_type", isinstance(f.as_bytes, (bytes, bytearray)), f"type {type(f.as_bytes)}")
+    got = f.as_bytes
+    eq(devs, f"{tag}.as_bytes", bytes(got), want)
+    true(devs, f"{tag}.as_bytes_type", isinstance(got, (bytes, bytearray)), f"type {type(got)}")
+    if isinstance(got, bytearray):
+        # what as_bytes hands out is the caller's: using it as a scratch buffer (in-place operations) does not change the field
+        scribble(got)
+        eq(devs, f"{tag}.as_bytes_after_caller_modified_the_returned_object", bytes(f.as_bytes), want)
     eq(devs, f"{tag}.int", int(f), v)
     eq(devs, f"{tag}.value", f.value, v)
     eq(devs, f"{tag}.len", len(f), w)
